@@ -140,10 +140,22 @@ def body_deletions(text, rules):
     for mt in re.finditer(r'\bvec!\s*\[\s*\]', m):
         dels.append((mt.start(), mt.end(), 'Vec::new()'))
         rules.append(('D6', 'vec![] -> Vec::new()', ''))
+    # D7: error VALUES built by `anyhow::anyhow!(..)` / `format!(..)` are replaced by opaque constants of the unit prelude
+    # (`anyhow::opaque_error()` / `opaque_message()`); which branch returns an error is unchanged, only its text is abstracted
+    for mt in re.finditer(r'(?<![\w:])(?:::)?anyhow::anyhow!\s*\(', m):
+        close = match_close(m, mt.end() - 1)
+        dels.append((mt.start(), close + 1, 'anyhow::opaque_error()'))
+        rules.append(('D7', 'anyhow::anyhow!(..) -> anyhow::opaque_error()', norm_ws(text[mt.start():close + 1])[:80]))
+    for mt in re.finditer(r'(?<![\w:!])format!\s*\(', m):
+        close = match_close(m, mt.end() - 1)
+        if any(a <= mt.start() < b for a, b, *_ in dels):
+            continue
+        dels.append((mt.start(), close + 1, 'opaque_message()'))
+        rules.append(('D7', 'format!(..) -> opaque_message()', norm_ws(text[mt.start():close + 1])[:80]))
     # D4: `::indexmap::` names an extern crate; in the one-file unit the stub module is `indexmap::` (in scope via the prelude)
-    for mt in re.finditer(r'(?<![\w:])::indexmap::', m):
-        dels.append((mt.start(), mt.end(), 'indexmap::'))
-        rules.append(('D4', '::indexmap:: -> indexmap::', ''))
+    for mt in re.finditer(r'(?<![\w:])::(indexmap|serde)::', m):
+        dels.append((mt.start(), mt.end(), mt.group(1) + '::'))
+        rules.append(('D4', f'::{mt.group(1)}:: -> {mt.group(1)}::', ''))
     dels.sort(key=lambda d: (d[0], d[1]))
     return dels
 
